@@ -54,6 +54,19 @@ type fn struct {
 	labels map[string]bool
 	// madeMaps: map-typed expressions (printed) this function visibly made non-nil
 	madeMaps map[string]bool
+	// flowInsensitive: the body uses goto / labelled branches; nothing is tracked, every loop
+	// may exit and every statement stays reachable in the skeleton
+	flowInsensitive bool
+	decl            *declInfo
+}
+
+// declInfo: facts about one top-level function that its literals may rely on.
+type declInfo struct {
+	// pointer parameters that are never assigned and whose address is never taken: non-nil
+	// (caller assumption) in the function and in every literal nested in it
+	immutPtr map[*types.Var]bool
+	// locals initialised by make(map…) / a map literal and never assigned again
+	madeMaps map[string]bool
 }
 
 // boundCtx: inside `for i := …; i < len(x); i++` the index i is in range for x.
@@ -247,6 +260,13 @@ func (f *fn) collect(ftype *ast.FuncType, recv *ast.FieldList, body *ast.BlockSt
 		})
 	}
 	walk(body, false)
+	if f.flowInsensitive {
+		return
+	}
+	for v := range f.decl.immutPtr {
+		cands = append(cands, v)
+		delete(bad, v)
+	}
 	for _, v := range cands {
 		if bad[v] {
 			continue
@@ -318,6 +338,9 @@ func (f *fn) derefOf(e ast.Expr, at ast.Node, kind string) *Stmt {
 		return f.eff(e)
 	}
 	if i, ok := f.tracked(e); ok {
+		if f.allow.covers(f.name, kind, f.str(e)) {
+			return skip()
+		}
 		return require(i, kPtr, f.newSite(at, kind, f.str(e)))
 	}
 	if u, ok := e.(*ast.UnaryExpr); ok && u.Op == token.AND {
@@ -393,6 +416,9 @@ func (f *fn) eff(e ast.Expr) *Stmt {
 		}
 		m := kindOfStatic(f.typeOf(e.Type))
 		if i, ok := f.tracked(e.X); ok && m != 0 && isTokenType(f.typeOf(e.X)) {
+			if f.allow.covers(f.name, "assert", f.str(e)) {
+				return skip()
+			}
 			return require(i, m, f.newSite(e, "assert", f.str(e)))
 		}
 		return seq(f.eff(e.X), f.hz(e, "assert", f.str(e)))
@@ -483,6 +509,9 @@ func (f *fn) slice(e *ast.SliceExpr) *Stmt {
 		okLow = true
 	}
 	okHigh := e.High == nil || f.str(e.High) == "len("+xs+")"
+	if c, ok := f.intConst(e.High); ok && c == 0 {
+		okHigh = true
+	}
 	if okLow && okHigh && e.Max == nil {
 		return pre
 	}
@@ -742,8 +771,16 @@ func (f *fn) stmt(s ast.Stmt) *Stmt {
 	case *ast.ReturnStmt:
 		return seq(f.effs(s.Results), ret())
 	case *ast.BranchStmt:
-		if s.Label != nil || s.Tok == token.GOTO || s.Tok == token.FALLTHROUGH {
-			return seq(f.hz(s, "unsupported", s.Tok.String()+" with label / goto / fallthrough"), ret())
+		if s.Tok == token.FALLTHROUGH {
+			return seq(f.hz(s, "unsupported", "fallthrough"), ret())
+		}
+		if s.Label != nil || s.Tok == token.GOTO {
+			if !f.flowInsensitive {
+				return seq(f.hz(s, "unsupported", "labelled branch outside flow-insensitive mode"), ret())
+			}
+			if s.Tok == token.GOTO {
+				return skip()
+			}
 		}
 		if s.Tok == token.BREAK {
 			return brk()
@@ -806,6 +843,9 @@ func (f *fn) stmt(s ast.Stmt) *Stmt {
 			head := skip()
 			if s.Cond != nil {
 				head = f.cond(s.Cond, skip(), brk())
+			}
+			if f.flowInsensitive {
+				return seq(init, loop(f.newSite(s, "loop", "for"), choice(seqs(head, body, post), brk())))
 			}
 			return seq(init, loop(f.newSite(s, "loop", "for"), seqs(head, body, post)))
 		})
@@ -1157,23 +1197,41 @@ func (f *fn) noteMade(lhs, rhs ast.Expr) {
 // noteNilGuard: after `if m == nil { m = make(…) }` (no else) m is non-nil.
 func (f *fn) noteNilGuard(s *ast.IfStmt) {
 	be, ok := ast.Unparen(s.Cond).(*ast.BinaryExpr)
-	if !ok || be.Op != token.EQL || !f.isNil(be.Y) || s.Else != nil || len(s.Body.List) != 1 {
+	if !ok || be.Op != token.EQL || !f.isNil(be.Y) || s.Else != nil {
 		return
 	}
-	as, ok := s.Body.List[0].(*ast.AssignStmt)
-	if !ok || as.Tok != token.ASSIGN || len(as.Lhs) != 1 || len(as.Rhs) != 1 {
+	// some top-level statement of the body stores a fresh map, and control cannot leave the
+	// body before it other than by falling through (only plain calls / assignments)
+	for _, st := range s.Body.List {
+		switch st := st.(type) {
+		case *ast.ExprStmt:
+			continue
+		case *ast.AssignStmt:
+			if st.Tok == token.ASSIGN && len(st.Lhs) == 1 && len(st.Rhs) == 1 &&
+				f.str(st.Lhs[0]) == f.str(be.X) && isMapMaker(f, st.Rhs[0]) {
+				f.madeMaps[f.str(be.X)] = true
+				return
+			}
+			continue
+		}
 		return
-	}
-	if f.str(as.Lhs[0]) == f.str(be.X) && isMapMaker(f, as.Rhs[0]) {
-		f.madeMaps[f.str(be.X)] = true
 	}
 }
 
 // translateFunc builds the skeleton of one function body.
-func (x *xl) translateFunc(name string, ftype *ast.FuncType, recv *ast.FieldList, body *ast.BlockStmt) (*Stmt, int) {
-	f := &fn{xl: x, name: name, oks: map[*types.Var]okInfo{}, labels: map[string]bool{}, madeMaps: map[string]bool{}}
+func (x *xl) translateFunc(name string, di *declInfo, ftype *ast.FuncType, recv *ast.FieldList, body *ast.BlockStmt) (*Stmt, int) {
+	f := &fn{xl: x, name: name, oks: map[*types.Var]okInfo{}, labels: map[string]bool{}, madeMaps: map[string]bool{}, decl: di}
+	for k := range di.madeMaps {
+		f.madeMaps[k] = true
+	}
+	f.flowInsensitive = unstructured(body)
 	f.collect(ftype, recv, body)
 	entry := skip()
+	for v := range di.immutPtr {
+		if i, ok := f.vars[v]; ok {
+			entry = seq(entry, havoc(i, kPtr))
+		}
+	}
 	ptrParams := func(fl *ast.FieldList, mask int) {
 		if fl == nil {
 			return
@@ -1199,4 +1257,69 @@ func (x *xl) translateFunc(name string, ftype *ast.FuncType, recv *ast.FieldList
 	ptrParams(ftype.Results, kNil)
 	s := seq(entry, f.stmts(body.List))
 	return simplify(s), len(f.vars)
+}
+
+// unstructured: the body (nested literals excluded) uses goto or a labelled break/continue.
+func unstructured(body *ast.BlockStmt) bool {
+	found := false
+	ast.Inspect(body, func(n ast.Node) bool {
+		switch n := n.(type) {
+		case *ast.FuncLit:
+			return false
+		case *ast.BranchStmt:
+			if n.Tok == token.GOTO || n.Label != nil {
+				found = true
+			}
+		}
+		return true
+	})
+	return found
+}
+
+// declFacts computes the declInfo of a top-level function.
+func (x *xl) declFacts(fd *ast.FuncDecl) *declInfo {
+	di := &declInfo{immutPtr: map[*types.Var]bool{}, madeMaps: map[string]bool{}}
+	tmp := &fn{xl: x}
+	assigned := tmp.assignedIn(fd.Body) // ast.Inspect descends into literals too
+	addrTaken := map[*types.Var]bool{}
+	assignCount := map[string]int{}
+	ast.Inspect(fd.Body, func(n ast.Node) bool {
+		switch n := n.(type) {
+		case *ast.UnaryExpr:
+			if n.Op == token.AND {
+				if v := tmp.varOf(n.X); v != nil {
+					addrTaken[v] = true
+				}
+			}
+		case *ast.AssignStmt:
+			for _, l := range n.Lhs {
+				assignCount[types.ExprString(l)]++
+			}
+		}
+		return true
+	})
+	if fd.Type.Params != nil {
+		for _, fld := range fd.Type.Params.List {
+			for _, nm := range fld.Names {
+				if v, ok := x.l.Info.Defs[nm].(*types.Var); ok && isStartPtr(v.Type()) && !assigned[v] && !addrTaken[v] {
+					di.immutPtr[v] = true
+				}
+			}
+		}
+	}
+	// top-level `m := make(map…)` assigned exactly once in the whole declaration
+	for _, st := range fd.Body.List {
+		as, ok := st.(*ast.AssignStmt)
+		if !ok || as.Tok != token.DEFINE || len(as.Lhs) != 1 || len(as.Rhs) != 1 {
+			continue
+		}
+		id, ok := as.Lhs[0].(*ast.Ident)
+		if !ok || assignCount[id.Name] != 1 || !isMapMaker(tmp, as.Rhs[0]) {
+			continue
+		}
+		if v := tmp.varOf(id); v != nil && !addrTaken[v] {
+			di.madeMaps[id.Name] = true
+		}
+	}
+	return di
 }
